@@ -173,6 +173,19 @@ def run(ctx):
             steps.append({"op": "list", "band": int(bid)})
             queries.append((int(bid), "/"))
         cases.append({"id": f"x{k}", "layout": layout, "queries": queries, "steps": steps})
+    # byte order vs path order: the newer band stops at a root-level name that is byte-wise above
+    # deeper paths of the older band (path order puts a directory's children before deeper levels)
+    allp = sorted_paths(ALPHA + ["/m", "/d/g", "/d/f", "/z"])
+    roots = [p for p in allp if p.count("/") == 1 and p != "/"]
+    for ri, r in enumerate(roots):
+        newer = [p for p in allp if p.count("/") == 1 and gen.apath_cmp(p, r) != 2]
+        for size in (1, 2, 3):
+            old_hunks = [allp[i:i + size] for i in range(0, len(allp), size)]
+            layout = {"bands": {
+                "0": {"head": True, "tail": True, "hunks": {str(n): [{"apath": p, "kind": "File" if p != "/" else "Dir", "mtime": 0} for p in h] for n, h in enumerate(old_hunks)}},
+                "1": {"head": True, "tail": False, "hunks": {"0": [{"apath": p, "kind": "File" if p != "/" else "Dir", "mtime": 1} for p in newer]}}}}
+            cases.append({"id": f"o{ri}_{size}", "layout": layout, "queries": [(1, "/"), (1, "/a")],
+                          "steps": [{"op": "write_archive", "layout": layout}, {"op": "list", "band": 1}, {"op": "list", "band": 1, "subtree": "/a"}]})
     res = ctx.cvh_run(cases)
     # ---- direct oracle + collect implementation answers
     model_items = []
